@@ -387,7 +387,12 @@ def gen_prime(rng, f, n):
             dc, vc, _ = operand(rng, f, c)
             dd, vd, _ = operand(rng, f, d)
             op = rng.choice(["nr_add_mul", "nr_sub_mul", "nr_mul2_mul", "nr_add_sq", "nr_sub_sq", "nr_addsub_mul",
-                             "nr_m2a_m2s", "nr_add_addsub", "nr_sub_subadd2"])
+                             "nr_m2a_m2s", "nr_add_addsub", "nr_sub_subadd2", "nr_add8_sub8"])
+            if op == "nr_add8_sub8":
+                # public in the 51-bit-limb backend only
+                out.append(case1(T + op + " %s %s %s" % (da, db, dc), "OK " + f.enc((va + 8 * vb) * vc) + " " + f.enc((va - 8 * vb) * vc),
+                                 ["noreduce:" + op], "noreduce", only=("m51",)))
+                continue
             if op == "nr_add_mul":
                 ln, ex = "%s %s %s" % (da, db, dc), f.enc((va + vb) * vc)
             elif op == "nr_sub_mul":
